@@ -243,15 +243,19 @@ example :
       .ok (some (.video "AAAAAAAAAAA".toList (some "next=".toList))) := by
   rw [parse_eq_fuel, parse_eq_fuel, parse_eq_fuel]; decide +kernel
 
-/-- why a playlist id stops at `/` as well: `infer_redirection` reads the raw url, where a TAB
-hides the cache host `bc.marfeel.com/`; with the TAB removed the playlist id would be
-`bc.marfeel.com/x`, and the canonical url would be followed as a redirection to `https://x` -/
+/-- a TAB inside a cache host (`bc.marfeel.co<TAB>m/`): since /repo dcfec1d `infer_redirection`
+reads the cleaned url, so the TAB hides nothing and the url is followed as a redirection (to
+`x`, no youtube url) like its TAB-free spelling; before that fix the TAB hid the cache host from
+`infer_redirection` only, which is why a playlist id stops at `/` as well (an escaped TAB `%09`
+behind a redirection hint still becomes a raw one by unquoting) -/
 example :
     parse_youtube_url id smallTrie "youtube.com/watch?v=dQw4w9WgXcQ&list=bc.marfeel.co\tm/x".toList true =
-      .ok (some (.video "dQw4w9WgXcQ".toList (some "bc.marfeel.com".toList))) ∧
+      .ok none ∧
     parse_youtube_url id smallTrie "https://www.youtube.com/watch?v=dQw4w9WgXcQ&list=bc.marfeel.com/x".toList true =
-      .ok none := by
-  rw [parse_eq_fuel, parse_eq_fuel]; decide +kernel
+      .ok none ∧
+    parse_youtube_url id smallTrie "youtube.com/watch?v=dQw4w9WgXcQ&list=bc.marfeel.co\tm".toList true =
+      .ok (some (.video "dQw4w9WgXcQ".toList (some "bc.marfeel.com".toList))) := by
+  rw [parse_eq_fuel, parse_eq_fuel, parse_eq_fuel]; decide +kernel
 
 /-- the shapes that used to break the round trip earlier, as repaired (55c9bda, d47b8e8, 569f4b6,
 716cf1e): a reserved word behind `@` is no channel; a trailing blank is no part of a name; a
